@@ -837,7 +837,7 @@ def run(ctx):
              'tablequick/docquick configurations, a checksum-selected quarter - then capped at 25-30k per configuration - for '
              'the list/select/inline/table/doc configurations, whose design-level check is still exhaustive), the real outputs '
              'of those documents fed back as second-pass inputs (tags omitted), complete states met on TLC -simulate '
-             'walks, all inputs of html/html_test.go, template-delimiter documents; each crossed with Keep* option sets '
+             'walks, all inputs of html/html_test.go, template-delimiter documents, the fixed families (comment positions, one probe per element name, every named character reference of the standard in text / attribute / title); each crossed with Keep* option sets '
              '(8 pairwise-covering sets; all 128 for the test inputs in thorough) and read as fragment (body context) '
              'and as document; a case is (input bytes, options, fragment?, delimiters); non-trivial = the real minifier '
              'changed the bytes.  Generator exclusions (known findings, pinned in known/C03.ndjson): X7 empty attribute-less script/style; X11 optgroup directly inside template contents; X10 a kept comment (KeepComments/KeepSpecialComments) directly after a dropped tag; %d repository test inputs '
